@@ -1,4 +1,100 @@
-import CssVerif.Model.Selector
+/-
+C16 — Selector specificity equals the CSS definition.
+
+`Model/Selector.lean` transcribes `Selector._setSelectorText` of /repo: the token pre-pass, the
+`append()` bookkeeping (prefix resolution, specificity counters keyed on context and item type), every
+production with its `expected` string and context stack, and the post-conditions.
+`Model/SelectorAst.lean` is the specification: the level-3 selector grammar as an inductive type, the CSS
+definition of specificity on it, and its rendering to the (merged) token stream.
+
+`specificity` is proved by induction over the grammar: every simple selector, `:not(x)` for every simple
+kind, functional pseudo-classes with any argument list, attribute selectors with every operator / value /
+prefix form, namespaced type and universal selectors, pseudo-elements in both notations, and compound
+sequences joined by any combinators with any whitespace layout — no bound on length or nesting.
+
+Tie to the code: the `sel` correspondence runs the real tokenizer + Selector and the tokenizer model +
+this state machine on the same selector texts (items, specificity, verdict compared), so the rendering
+`Sel.toks` of the grammar is exercised against what the real tokenizer and pre-pass produce.
+
+Partial: the theorem starts at the merged token stream (after the pre-pass); "unchanged by serialising
+and re-parsing" and the @page triple are decided by the oracle on the implementation (`harness/props/c16.py`).
+-/
+import CssVerif.Proofs.Selector
+import CssVerif.Gen.Productions
 namespace CssVerif.C16
-theorem placeholder : True := trivial
+open CssVerif CssVerif.Selector
+
+/-- obligation on the regenerated tables: `:not(` is its own normal form -/
+theorem not_norm : NotNorm Gen.tables := by unfold NotNorm; decide +kernel
+
+/-- **C16.**  For every selector `σ` of the level-3 grammar (well-formed: declared prefixes, normalised
+pseudo names) the selector state machine of /repo accepts it without an error and reports exactly
+(ids, classes + attributes + pseudo-classes, types + pseudo-elements) as the CSS definition gives. -/
+theorem specificity (m : NsMap) (σ : Sel) (hw : σ.WF Gen.tables m) :
+    (Selector.finish (run Gen.tables m σ.toks)).wellformed = true ∧
+    (Selector.finish (run Gen.tables m σ.toks)).firstErr = "" ∧
+    (Selector.finish (run Gen.tables m σ.toks)).spec = σ.spec :=
+  run_sel Gen.tables m not_norm σ hw
+
+/-- the same for any tokenizer tables that normalise `:not(` to itself -/
+theorem specificity_any_tables (T : Tables) (hnn : NotNorm T) (m : NsMap) (σ : Sel) (hw : σ.WF T m) :
+    (Selector.finish (run T m σ.toks)).spec = σ.spec := (run_sel T m hnn σ hw).2.2
+
+/-- the universal selector, the negation itself and `:where()` count nothing; the argument of `:not()`
+counts as its own kind (the definition side, spelled out) -/
+theorem definition_cases (p : Pfx) (n v : Text) (a : ArgTok) (as : List ArgTok) :
+    (Head.universal p).spec = (0, 0, 0) ∧ (Part.neg (.type p n)).spec = (0, 0, 1) ∧
+    (Part.neg (.universal p)).spec = (0, 0, 0) ∧ (Part.neg (.simple (.id v))).spec = (1, 0, 0) ∧
+    (Part.neg (.simple (.cls v))).spec = (0, 1, 0) ∧ (Simple.pfunc (str ":where(") a as).spec = (0, 0, 0) := by
+  refine ⟨rfl, rfl, rfl, rfl, rfl, ?_⟩
+  simp [Simple.spec]
+
+/-! ### non-vacuity: a concrete selector using every construct meets the hypotheses -/
+
+def exNs : NsMap := [(str "p", str "u1"), (str "q", str "u2")]
+
+/-- `p|a#i.c[q|x~="v"]:hover:nth-child(2n+1):not(.d)::after > *|b:not(|e):before` -/
+def exSel : Sel :=
+  { first := { head := some (.type (.named (str "p")) (str "a")),
+               parts := [.simple (.id (str "#i")), .simple (.cls (str ".c")),
+                         .simple (.attrib (some (str "q")) (str "x") (some (.inc, .string (str "\"v\"")))),
+                         .simple (.pclass (str ":hover")),
+                         .simple (.pfunc (str ":nth-child(") (.dimension (str "2n")) [.plus, .number (str "1")]),
+                         .neg (.simple (.cls (str ".d")))],
+               pelem := some (.dbl (str "::after")) },
+    rest := [(.child, ⟨true, true⟩,
+              { head := some (.type .any (str "b")), parts := [.neg (.type .empty (str "e"))],
+                pelem := some (.legacy (str ":before")) })] }
+
+theorem exSel_wf : exSel.WF Gen.tables exNs := by
+  refine ⟨⟨?_, ?_, ?_, ?_⟩, ?_⟩
+  · intro h hh; cases hh; exact ⟨by decide, by decide, by decide, by decide⟩
+  · intro p hp
+    simp only [exSel, List.mem_cons, List.not_mem_nil, or_false] at hp
+    rcases hp with rfl | rfl | rfl | rfl | rfl | rfl
+    · trivial
+    · trivial
+    · exact Or.inr (Or.inr (by decide))
+    · exact ⟨by decide +kernel, by decide, by decide⟩
+    · exact ⟨by decide +kernel, by decide, by decide, by decide⟩
+    · trivial
+  · intro e he; cases he; exact ⟨by decide +kernel, by decide, by decide⟩
+  · exact Or.inl rfl
+  · intro x hx
+    simp only [exSel, List.mem_cons, List.not_mem_nil, or_false] at hx
+    subst hx
+    refine ⟨?_, ?_, ?_, ?_⟩
+    · intro h hh; cases hh; trivial
+    · intro p hp
+      simp only [List.mem_cons, List.not_mem_nil, or_false] at hp
+      subst hp; trivial
+    · intro e he; cases he; exact ⟨by decide +kernel, by decide⟩
+    · exact Or.inl rfl
+
+theorem exSel_spec : exSel.spec = (1, 5, 5) := by decide
+
+/-- … and the executable model, run on it, agrees (a test, labelled as one) -/
+theorem exSel_run : (Selector.finish (run Gen.tables exNs exSel.toks)).spec = (1, 5, 5) :=
+  (specificity exNs exSel exSel_wf).2.2.trans exSel_spec
+
 end CssVerif.C16
